@@ -174,7 +174,7 @@ end Nri.TA
 namespace Nri.TA.Expectgen_ta_pin_facts_ok
 def applyGrantCpus : List String := ["exclusive := grant.ExclusiveCPUs()", "reserved := grant.ReservedCPUs()", "shared := grant.SharedCPUs()", "cpuPortion := grant.SharedPortion()", "cpus := cpuset.New()", "switch cpuType", "> case cpuNormal", "> > if exclusive.IsEmpty()", "> > > cpus = shared", "> > else", "> > > if cpuPortion > 0", "> > > > cpus = exclusive.Union(shared)", "> > > else", "> > > > cpus = exclusive", "> case cpuReserved", "> > cpus = reserved", "> > cpuPortion = grant.ReservedPortion()", "> default", "> > return", "if opt.PinCPU", "> if cpuType == cpuPreserve", "> else", "> > if cpus.Size() > 0", "> > > p.setPreferredCpusetCpus(container, cpus, fmt.Sprintf(…)", "> > else", "> > > container.SetCpusetCpus(\"\")"]
 def updateShared : List String := ["if grant != nil", "> if (*grant).CPUType() == cpuReserved", "> > return", "else", "range p.allocations.grants", "> if grant != nil", "> > if other.GetContainer().GetID() == (*grant).GetContainer().GetID()", "> > > continue", "> if other.CPUType() == cpuReserved", "> > continue", "> if other.CPUType() == cpuPreserve", "> > continue", "> if other.SharedPortion() == 0 && !other.ExclusiveCPUs().IsEmpty()", "> > continue", "> if opt.PinCPU", "> > shared := other.GetCPUNode().FreeSupply().SharableCPUs()", "> > exclusive := other.ExclusiveCPUs()", "> > if exclusive.IsEmpty()", "> > > p.setPreferredCpusetCpus(other.GetContainer(), shared, fmt.Sprintf(…)", "> > else", "> > > p.setPreferredCpusetCpus(other.GetContainer(), exclusive.Union(shared), fmt.Sprintf(…)"]
-def setPreferred : List String := ["allow := allocated", "if ok && hideHyperthreadsPreference(pod, container)", "> allow = p.sys.SingleThreadForCPUs(allocated)", "> if allow.Size() != allocated.Size()", "> else", "container.SetCpusetCpus(allow.String())"]
+def setPreferred : List String := ["allow := allocated", "if ok && hideHyperthreadsPreference(pod, container)", "> allow = p.sys.SingleThreadForCPUs(allocated)", "> if allow.Size() != allocated.Size()", "> > hidingInfo = fmt.Sprintf(…)", "> else", "container.SetCpusetCpus(allow.String())"]
 def grantSharedCPUs : List String := ["return cg.node.FreeSupply().SharableCPUs()"]
 def grantReservedCPUs : List String := ["return cg.node.GetSupply().ReservedCPUs()"]
 def grantExclusiveCPUs : List String := ["return cg.exclusive"]
